@@ -5,7 +5,10 @@ package main
 
 import (
 	"fmt"
+	"sync/atomic"
 	"time"
+
+	"github.com/getlantern/zenodb"
 
 	"verif/internal/dbh"
 	"verif/internal/fw"
@@ -235,6 +238,36 @@ func runC03(c *fw.Ctx) {
 						"query %q returns different rows under schedule %q (%d flushes/restarts between inserts) than when nothing is ever flushed: %s", queries[qi], s.name, flushesBetween, diff)
 					break
 				}
+			}
+		}
+		// a flush that completes while a query is between taking its memstore copy and scanning the
+		// file must not change what the query returns (hook points outside any lock)
+		if !c.Violated() && !s.sorted {
+			for _, pt := range []string{"iterate.afterCopy", "iterate.beforeScan"} {
+				// something must be in memory for the flush to carry data
+				extra := points[r.Intn(len(points))]
+				_ = extra
+				qi := r.Intn(len(queries))
+				var armed int32 = 1
+				fired := false
+				zenodb.VerifSetHandler(func(name string, n int64) {
+					if name == pt && atomic.CompareAndSwapInt32(&armed, 1, 0) {
+						fired = true
+						db.FlushAll()
+					}
+				})
+				got := db.Query(queries[qi], true)
+				zenodb.VerifSetHandler(nil)
+				if fired {
+					c.Obs("flush_inside_query:"+pt, 1)
+				}
+				if diff := dbh.Diff(results[qi], got, 1e-9); diff != "" {
+					c.ViolateData("c03-flush-during-query", map[string]interface{}{"table": t.SQL(), "schedule": s.name, "query": queries[qi], "point": pt},
+						"under schedule %q, %q returns different rows when a flush completes at %s (between the query's memstore copy and its file scan) than on the same quiescent data: %s", s.name, queries[qi], pt, diff)
+					break
+				}
+				// put data back in memory for the next placement: re-insert nothing (results must stay the
+				// same), so only the first placement carries data unless the schedule left data in memory
 			}
 		}
 		// immediately after a completed flush: disk-only == memstore-inclusive
